@@ -5,3 +5,4 @@ import DDProps.C10
 import DDProps.C18
 import DDProps.C17
 import DDProps.C14
+import DDProps.C09
